@@ -804,7 +804,7 @@ func init() {
 		ID: "C10", Level: "fault_enumeration",
 		QuickRuns: 2400, ThoroughRuns: 40000,
 		Gen: c10Gen, Exec: c10Exec, Shrink: c10Shrink,
-		Rule: "variable-map documents are also decoded into USED target maps (seeded histories of store / miss / range / delete / clear; three histories per document, six documents per case) as read-first and write-first twins: lookups, iteration and Length must agree before and after iteration, host stores and a script assignment of a new variable must work, and both twins must end with the same variables. One case = one document written by ToJSON in a generated session (a variable map or one of its values; ints, floats, strings, arrays, dicts, functions, computed values with attributes, native functions) plus a set of stored-byte faults: for documents up to 160 bytes EVERY truncation length and EVERY single-bit flip, for larger ones 60 truncations and 200 flips, plus 40 stale-schema faults on the JSON tree (field dropped / renamed / null, type tag changed incl. internal and unknown tags, payload of another node, unknown native name, duplicate keys, 150-deep nesting, hand-written malformed documents) and garbage sectors; every object is also presented as a variable map. Each document must be rejected or decode to values on which ToString, ToRepr, AsBool, Clone, ValueEqual, ToJSON+decode and a battery of 42 scripts with the value bound as v (indexing, calling, arithmetic, attribute access, dice operands, templates) plus an observation burst are crash-free. distinct = distinct base documents; non-trivial = at least 2 corrupted documents still decoded",
+		Rule: "stale-schema faults include long lists with holes / wrong elements (also nested in dicts and computed attrs), repeated keys after the payload (a second type tag of another kind, a second payload) and sessions that keep bound methods in variables. Variable-map documents are also decoded into USED target maps (seeded histories of store / miss / range / delete / clear; three histories per document, six documents per case) as read-first and write-first twins: lookups, iteration and Length must agree before and after iteration, host stores and a script assignment of a new variable must work, and both twins must end with the same variables. One case = one document written by ToJSON in a generated session (a variable map or one of its values; ints, floats, strings, arrays, dicts, functions, computed values with attributes, native functions) plus a set of stored-byte faults: for documents up to 160 bytes EVERY truncation length and EVERY single-bit flip, for larger ones 60 truncations and 200 flips, plus 40 stale-schema faults on the JSON tree (field dropped / renamed / null, type tag changed incl. internal and unknown tags, payload of another node, unknown native name, duplicate keys, 150-deep nesting, hand-written malformed documents) and garbage sectors; every object is also presented as a variable map. Each document must be rejected or decode to values on which ToString, ToRepr, AsBool, Clone, ValueEqual, ToJSON+decode and a battery of 42 scripts with the value bound as v (indexing, calling, arithmetic, attribute access, dice operands, templates) plus an observation burst are crash-free. distinct = distinct base documents; non-trivial = at least 2 corrupted documents still decoded",
 		Real: []string{"VMValue.UnmarshalJSON / ValueMap.UnmarshalJSON, every VMValue method in the battery, the VM with the value bound"},
 		Stub: []string{"disk faults applied to bytes in memory"},
 		Assumptions: []string{"errors (including 'VM internal error' results) are acceptable outcomes; only panics, fatal errors and hangs are violations"},
